@@ -633,6 +633,15 @@ func (c *Canonicalizer) renamerFunc() loop.Renamer {
 
 	var renamer loop.Renamer
 	renamer = func(v ssa.Value) string {
+		// A recurrence asks for the name of its loop: the canonical name of the header block.
+		if ref, ok := v.(*loop.LoopRef); ok {
+			if ref.Loop != nil {
+				if name, known := c.blockMap[ref.Loop.Header]; known {
+					return loop.LoopNamePrefix + name
+				}
+			}
+			return ""
+		}
 		if depth >= MaxRenamerDepth {
 			return "<depth-limit>"
 		}
